@@ -48,6 +48,7 @@ type genSvc struct {
 	exists  bool
 	deployN int
 	last    *deployParams
+	allow   []string // allowlist of the last rollout-set
 }
 
 func ctlTargets(rng *mrand.Rand, svc string, n *int, rollout bool) []string {
@@ -111,6 +112,7 @@ func genControl(rng *mrand.Rand, n int, tier string, w *bufio.Writer) {
 				for chance(rng, 40) && len(allow) < 3 {
 					allow = append(allow, pick(rng, ctlCookieVal[1:]))
 				}
+				gs.allow = allow
 				fmt.Fprintf(w, "rollout-set name=%s percent=%d allow=%s\n", hexB([]byte(name)), pct, encList(allow))
 			case r < 89:
 				fmt.Fprintf(w, "rollout-stop name=%s\n", hexB([]byte(name)))
@@ -139,6 +141,13 @@ func genControl(rng *mrand.Rand, n int, tier string, w *bufio.Writer) {
 					for _, tlsOn := range []bool{false, true} {
 						fmt.Fprintf(w, "req method=%s host=%s path=%s uri=%s tls=%s cookies=L\n", hexB([]byte("GET")), hexB([]byte(h)),
 							hexB([]byte(u.Path)), hexB([]byte(uri)), b2s(tlsOn))
+					}
+					// the same request carrying an allowlisted rollout cookie, and one just outside the list
+					if len(gs.allow) > 0 {
+						for _, v := range []string{pick(rng, gs.allow), pick(rng, gs.allow) + "x"} {
+							fmt.Fprintf(w, "req method=%s host=%s path=%s uri=%s tls=%s cookies=%s\n", hexB([]byte("GET")), hexB([]byte(h)),
+								hexB([]byte(u.Path)), hexB([]byte(uri)), b2s(gs.last.tls), encList([]string{"kamal-rollout=" + v}))
+						}
 					}
 				}
 			}
@@ -259,7 +268,7 @@ func genDeployLine(rng *mrand.Rand, w *bufio.Writer, name string, gs *genSvc, ho
 		p.redirect, p.strip = chance(rng, 60), chance(rng, 60)
 		p.acmedir = pick(rng, []string{"", "https://acme.invalid/dir"})
 		p.acmecache = pick(rng, []string{"", "certs"})
-		p.hcpath = pick(rng, []string{"/up", "/up", "/healthz", "/"})
+		p.hcpath = pick(rng, []string{"/up", "/up", "/healthz", "/", ""})
 		p.hcint, p.hctimeout, p.resptimeout = pick(rng, []int64{1e9, 5e8, 2e9}), pick(rng, []int64{5e9, 1e9}), pick(rng, []int64{30e9, 10e9, 0})
 		p.bufreq, p.bufresp, p.fwd = chance(rng, 20), chance(rng, 20), chance(rng, 50)
 		p.maxmem, p.maxreq, p.maxresp = pick(rng, []int64{1 << 20, 0, 1024}), pick(rng, []int64{0, 10, 1 << 20}), pick(rng, []int64{0, 10, 1 << 20})
